@@ -10,7 +10,8 @@ for k in m1 m2; do
   cd $W && git checkout -q -- . && git clean -fdq -e target
   # demo on the clean tree
   cp $D/demo.rs tests/demo_$k.rs
-  extra=""; grep -q -- "--release" $D/meta.json && extra="--release"
+  # profile / feature flags exactly as the recorded demo command has them
+  extra=$(python3 -c "import json,re,sys; c=json.load(open(sys.argv[1])).get('demo_cmd',''); print(' '.join(re.findall(r'--release|--features [\\w,-]+', c)))" $D/meta.json)
   cargo test --offline $extra --test demo_$k >$B/$P.out/$k/clean.log 2>&1; c0=$?
   git apply $D/patch.diff || { echo "$P $k: patch does not apply"; rm -f tests/demo_$k.rs; continue; }
   cargo test --offline $extra --test demo_$k >$B/$P.out/$k/mut.log 2>&1; c1=$?
